@@ -26,6 +26,7 @@ type c06Case struct {
 	HugeFirst string  `json:"huge_first"` // a BDAT command with this (unrepresentable) size and no payload precedes the chunks
 	Second    int     `json:"second"`     // size of a second message sent on the same connection with the same kind of transfer (0 = none)
 	Variant   string  `json:"variant"`    // message content: "" letters | xdot | dotlines
+	Verdict   int     `json:"verdict"`    // 0 = the backend accepts; else it reads the whole message and then refuses it with this code and a token of its own
 }
 
 func init() {
@@ -118,6 +119,19 @@ func c06Run(ctx *core.Ctx) {
 					emit(c06Case{N: N, Size: s1, Second: s2, ReadSize: 4096, Decl: -1, Mode: modes[idx%3]})
 					emit(c06Case{N: N, Size: s1, Second: s2, Chunks: []int{s1 / 2, s1 - s1/2}, ReadSize: 3, Decl: -1, Mode: modes[(idx+1)%3]})
 					emit(c06Case{N: N, Size: s1, Second: s2, Chunks: []int{s1}, ReadSize: 4096, Decl: -1, Mode: modes[(idx+2)%3]})
+				}
+			}
+			// the backend reads a fitting message to its end and refuses it for reasons of its own: the
+			// refusal is the backend's (code and all), also when the size budget is exactly used up
+			for _, size := range []int{int(N) - 1, int(N), int(N) + 1} {
+				if size < 2 {
+					continue
+				}
+				for vi, verdict := range []int{451, 554} {
+					idx++
+					emit(c06Case{N: N, Size: size, ReadSize: []int{4096, 1, 3}[idx%3], Decl: -1, Mode: modes[(idx+vi)%3], Verdict: verdict})
+					emit(c06Case{N: N, Size: size, Chunks: []int{size}, ReadSize: 4096, Decl: -1, Mode: modes[(idx+vi+1)%3], Verdict: verdict})
+					emit(c06Case{N: N, Size: size, Chunks: []int{size / 2, size - size/2, 0}, ReadSize: 3, Decl: -1, Mode: modes[(idx+vi+2)%3], Verdict: verdict})
 				}
 			}
 			// declared SIZE on its own (message fits)
@@ -234,6 +248,9 @@ func c06One(c c06Case, limit int64) c06Outcome {
 	rig.BE.H.Data = func(sess int, r *rec.Reader, st smtp.StatusCollector) error {
 		err := inner(sess, r, st)
 		if err != nil && err.Error() == "EOF" {
+			if c.Verdict != 0 {
+				return &smtp.SMTPError{Code: c.Verdict, EnhancedCode: smtp.EnhancedCode{c.Verdict / 100, 3, 0}, Message: "v#m06 the backend's own verdict"}
+			}
 			return nil
 		}
 		return err
@@ -392,7 +409,7 @@ func c06One(c c06Case, limit int64) c06Outcome {
 
 func c06Exec(ctx *core.Ctx, c c06Case) {
 	near := int64(c.Size) >= c.N-2
-	ctx.Eval(fmt.Sprintf("%d|%d|%v|%v|%d|%d|%s|%s|%d", c.N, c.Size, c.Chunks, c.Stuffed, c.ReadSize, c.Decl, c.Mode, c.Variant, c.Second)+c.HugeFirst, near || c.Decl >= 0)
+	ctx.Eval(fmt.Sprintf("%d|%d|%v|%v|%d|%d|%s|%s|%d", c.N, c.Size, c.Chunks, c.Stuffed, c.ReadSize, c.Decl, c.Mode, c.Variant, c.Second)+c.HugeFirst+fmt.Sprint("|", c.Verdict), near || c.Decl >= 0)
 	o := c06One(c, c.N)
 	if o.inconcl || isWatchdog(o.err) {
 		ctx.Inconclusive("C06 watchdog")
@@ -482,7 +499,21 @@ func c06Exec(ctx *core.Ctx, c c06Case) {
 		fail("C06:fits-not-delivered", fmt.Sprintf("message of %d octets (limit %d) not delivered intact: read %d octets, term %q", c.Size, c.N, len(o.read), o.term))
 		return
 	}
-	for _, f := range o.finals {
+	nFinal := 1
+	if c.Mode.lmtp() {
+		nFinal = 2
+	}
+	for fi, f := range o.finals {
+		if c.Verdict != 0 {
+			if fi < len(o.finals)-nFinal {
+				continue // the acknowledgement of a non-LAST chunk
+			}
+			if f != c.Verdict {
+				fail("C06:fits-but-verdict-replaced", fmt.Sprintf("the backend read the whole message (%d octets, limit %d) and refused it with %d; the client was told %v", c.Size, c.N, c.Verdict, o.finals))
+				return
+			}
+			continue
+		}
 		if f != 250 {
 			fail("C06:fits-not-accepted", fmt.Sprintf("replies %v", o.finals))
 			return
